@@ -152,9 +152,10 @@ def fee_on_route(rnd, n, sid="F"):
                     t["gasPrice"] = rnd.choice([5, 50])
                 q = rnd.random()
                 if q < 0.6:
-                    t.update(type="SellSwapPool", args={"coins": rt, "value": amt(rnd, 10, 3000), "min": rnd.choice(["quote:1000", "quote:1000", "quote:999", "quote:1001", "quote:995"])})
+                    t.update(type="SellSwapPool", args={"coins": rt, "value": amt(rnd, 10, 3000), "min": rnd.choice(["quote:1000", "tight", "tight", "quote:999", "quote:1001", "tight+1"])})
                 elif q < 0.9:
-                    t.update(type="BuySwapPool", args={"coins": rt, "value": amt(rnd, 10, 500), "max": rnd.choice(["quote:1000", "quote:1000", "quote:1001", "quote:999", "quote:1005"])})
+                    # "tight": the smallest maximum (largest minimum) the node's CheckTx accepts on the state the transaction meets
+                    t.update(type="BuySwapPool", args={"coins": rt, "value": amt(rnd, 10, 500), "max": rnd.choice(["quote:1000", "tight", "tight", "quote:1001", "quote:999", "tight-1"])})
                 else:
                     t.update(type="SellAllSwapPool", args={"coins": rt, "min": "0"})
                     t.pop("gasCoin")
